@@ -904,6 +904,10 @@ class TextXMetaMetaModel:
             self._metamodel = metamodel_from_file(
                 join(abspath(dirname(__file__)), "textx.tx")
             )
+            # ReMatch.match is the regex without the enclosing slashes.
+            self._metamodel.register_obj_processors(
+                {"ReMatchLiteral": lambda literal: literal[1:-1]}
+            )
         return self._metamodel
 
     def __getitem__(self, name):
